@@ -52,11 +52,14 @@ def extract():
     out = {"struct": struct, "fns": {}, "spans": {}}
     for name, f in fns.items():
         text = lines[f["ln"] - 1:f["end_ln"]]
-        m = re.match(r"^\s*(?:pub\s+)?fn\s+%s\s*\((.*)\)\s*->\s*(.+?)\s*\{\s*$" % name, text[0])
+        bl = (f.get("body") or {}).get("ln") or f["ln"]          # line of the body's opening brace (signatures may span lines)
+        nsig = bl - f["ln"] + 1
+        head = " ".join(l.strip() for l in text[:nsig])
+        m = re.match(r"^(?:pub\s+)?fn\s+%s\s*\((.*)\)\s*->\s*(.+?)\s*\{\s*$" % name, head)
         if not m:
-            raise Undecided("lost anchor: signature of IterBinomial::%s is not on one line: %r" % (name, text[0]))
-        sig = "fn %s(%s) -> (r: %s)" % (name, m.group(1), m.group(2))
-        out["fns"][name] = (sig, text[1:])           # body lines after the opening brace, verbatim, incl. the closing brace
+            raise Undecided("lost anchor: signature of IterBinomial::%s: %r" % (name, head))
+        sig = "fn %s(%s) -> (r: %s)" % (name, m.group(1).strip().rstrip(","), m.group(2))
+        out["fns"][name] = (sig, text[nsig:])        # body lines after the opening brace, verbatim, incl. the closing brace
         out["spans"][name] = "%s:%d-%d" % (SRC, f["ln"], f["end_ln"])
     return out
 
